@@ -11,10 +11,10 @@ import (
 )
 
 // C21: Coordinate.DistanceTo on pairs of coordinates.
-//   dist <coordA> <coordB>  => ns <d(a,b)> <d(b,a)> | panic-dim | panic-other
+//   dist <coordA> <coordB>  => ns <d(a,b)> <d(b,a)> | panic-dim      (a direction that panicked prints panic-dim / panic-other in place of its number)
 // Coordinates are written as in C20 (math.Float64bits in hex).
 
-func c21dist(a, b *coordinate.Coordinate) (res string) {
+func c21one(a, b *coordinate.Coordinate) (res string) {
 	defer func() {
 		if r := recover(); r != nil {
 			if _, is := r.(coordinate.DimensionalityConflictError); is {
@@ -24,9 +24,16 @@ func c21dist(a, b *coordinate.Coordinate) (res string) {
 			}
 		}
 	}()
-	ab := a.DistanceTo(b)
-	ba := b.DistanceTo(a)
-	return "ns " + strconv.FormatInt(int64(ab), 10) + " " + strconv.FormatInt(int64(ba), 10)
+	return strconv.FormatInt(int64(a.DistanceTo(b)), 10)
+}
+
+// both directions are taken separately; `panic-dim` alone = both raised the dimensionality error
+func c21dist(a, b *coordinate.Coordinate) string {
+	ab, ba := c21one(a, b), c21one(b, a)
+	if ab == "panic-dim" && ba == "panic-dim" {
+		return "panic-dim"
+	}
+	return "ns " + ab + " " + ba
 }
 
 func c21Exec(ops []string) []string {
@@ -140,6 +147,11 @@ func c21Gen(rng *rand.Rand, tier string) []Case {
 				}
 			case 2:
 				b = &coordinate.Coordinate{Vec: append([]float64{}, a.Vec...), Error: a.Error, Adjustment: a.Adjustment, Height: a.Height}
+			case 3:
+				// the adjusted distance is exactly 0.0 (the guard's boundary): same position, adjustment = -height
+				a.Adjustment = -a.Height
+				b = &coordinate.Coordinate{Vec: append([]float64{}, a.Vec...), Error: a.Error, Adjustment: -a.Height, Height: a.Height}
+				dimB = dim
 			}
 			if cls == 0 || cls == 1 {
 				nt++
@@ -164,7 +176,7 @@ func init() {
 		ID: "C21",
 		Rule: "25 pairs per case; dimension 8 (2/3) or 1-8; components uniform in ±m or exactly 0, ±m with m from {0.2, 1e-3, 100, 1e4} s, heights in [0, m], adjustments in ±m/10; " +
 			"15% with strongly negative adjustments (guard branch), 10% with huge adjustments (1e5 … 1e300 s), 10% with an adversarial value (NaN, ±Inf, 1e308, subnormals, negative heights: outside the property's scope, compared bit for bit only), " +
-			"1/15 with a different dimension on the right, 1/20 each: same position, one ulp apart, identical coordinate. Both d(a,b) and d(b,a) are taken from the real code. " +
+			"1/15 with a different dimension on the right, 1/20 each: same position, one ulp apart, identical coordinate, adjusted distance exactly 0 (adjustment = -height at the same position). Both d(a,b) and d(b,a) are taken from the real code. " +
 			"non-trivial = at least 10 in-scope pairs in the case; distinct = distinct op sequence",
 		Gen:  c21Gen,
 		Exec: c21Exec,
